@@ -292,7 +292,110 @@ func writeFacts(out string) error {
 	if err := os.MkdirAll(filepath.Dir(out), 0o755); err != nil {
 		return err
 	}
+	if err := writeConsts(filepath.Join(filepath.Dir(out), "Consts.lean")); err != nil {
+		return err
+	}
 	// only rewrite when the content changes (keeps lake's incremental build quiet)
+	if old, err := os.ReadFile(out); err == nil && string(old) == sb.String() {
+		return nil
+	}
+	if err := os.WriteFile(out, []byte(sb.String()), 0o644); err != nil {
+		return err
+	}
+	return nil
+}
+
+// ---- wire constants (C18) -----------------------------------------------------------------------
+
+// constValue finds `const <name> = <literal>` (or inside a const block) in a Go file
+func constValue(path, name string) (string, error) {
+	fset := token.NewFileSet()
+	file, err := parser.ParseFile(fset, path, nil, 0)
+	if err != nil {
+		return "", err
+	}
+	for _, d := range file.Decls {
+		gd, ok := d.(*ast.GenDecl)
+		if !ok || gd.Tok != token.CONST {
+			continue
+		}
+		for _, sp := range gd.Specs {
+			vs := sp.(*ast.ValueSpec)
+			for i, n := range vs.Names {
+				if n.Name == name && i < len(vs.Values) {
+					if bl, ok := vs.Values[i].(*ast.BasicLit); ok {
+						return bl.Value, nil
+					}
+				}
+			}
+		}
+	}
+	return "", fmt.Errorf("constant %s not found in %s", name, path)
+}
+
+func quotedIn(path, marker string) (string, error) {
+	b, err := os.ReadFile(path)
+	if err != nil {
+		return "", err
+	}
+	for _, line := range strings.Split(string(b), "\n") {
+		if strings.Contains(line, marker) && !strings.HasPrefix(strings.TrimSpace(line), "#") {
+			i := strings.Index(line, "\"")
+			j := strings.LastIndex(line, "\"")
+			if i >= 0 && j > i {
+				return line[i+1 : j], nil
+			}
+		}
+	}
+	return "", fmt.Errorf("no quoted string on a line containing %q in %s", marker, path)
+}
+
+func writeConsts(out string) error {
+	repo := os.Getenv("VERIF_REPO")
+	if repo == "" {
+		repo = "/repo"
+	}
+	type nc struct{ lean, file, name string }
+	nums := []nc{
+		{"didCore", "did/did.go", "DIDCore"}, {"didEd25519", "did/did.go", "Ed25519"}, {"didRSA", "did/did.go", "RSA"},
+		{"edSignerCode", "principal/ed25519/signer/signer.go", "Code"}, {"edVerifierCode", "principal/ed25519/verifier/verifier.go", "Code"},
+		{"rsaSignerCode", "principal/rsa/signer/signer.go", "Code"}, {"rsaVerifierCode", "principal/rsa/verifier/verifier.go", "Code"},
+		{"sigEdDSA", "ucan/crypto/signature/signature.go", "EdDSA"}, {"sigRS256", "ucan/crypto/signature/signature.go", "RS256"},
+		{"sigNonStandard", "ucan/crypto/signature/signature.go", "NON_STANDARD"}, {"sigES256K", "ucan/crypto/signature/signature.go", "ES256K"},
+		{"sigES256", "ucan/crypto/signature/signature.go", "ES256"}, {"sigEIP191", "ucan/crypto/signature/signature.go", "EIP191"},
+	}
+	var sb strings.Builder
+	sb.WriteString("/-! GENERATED on every run by `vharness -consts` from /repo's current source. Do not edit. -/\nnamespace Generated\n\n")
+	for _, c := range nums {
+		v, err := constValue(filepath.Join(repo, c.file), c.name)
+		if err != nil {
+			return err
+		}
+		fmt.Fprintf(&sb, "def %s : Nat := %s\n", c.lean, v)
+	}
+	strs := []nc{{"ucanVersion", "ucan/lib.go", "version"}, {"carContentType", "core/car/car.go", "ContentType"},
+		{"edAlgName", "principal/ed25519/verifier/verifier.go", "SignatureAlgorithm"}, {"rsaAlgName", "principal/rsa/verifier/verifier.go", "SignatureAlgorithm"}}
+	for _, c := range strs {
+		v, err := constValue(filepath.Join(repo, c.file), c.name)
+		if err != nil {
+			return err
+		}
+		fmt.Fprintf(&sb, "def %s : String := %s\n", c.lean, v)
+	}
+	arch, err := quotedIn(filepath.Join(repo, "core/delegation/datamodel/archive.ipldsch"), "rename")
+	if err != nil {
+		return err
+	}
+	msg, err := quotedIn(filepath.Join(repo, "core/message/datamodel/agentmessage.ipldsch"), "| Data")
+	if err != nil {
+		return err
+	}
+	typ, err := quotedIn(filepath.Join(repo, "ucan/formatter/formatter.go"), "Typ:")
+	if err != nil {
+		return err
+	}
+	fmt.Fprintf(&sb, "def archiveKey : String := %q\ndef messageKey : String := %q\ndef headerTyp : String := %q\n", arch, msg, typ)
+	sb.WriteString("\nend Generated\n")
 	if old, err := os.ReadFile(out); err == nil && string(old) == sb.String() {
 		return nil
 	}
